@@ -16,18 +16,25 @@ Import ListNotations.
 
 (* ---- the main theorem, with its guard ---- *)
 
-(* For every tree whose words are of the class their position demands
-   (wf_words) and which avoids the four constructs refuted below (supported):
-   the lexer turns the printed program into exactly the intended terminals, and
-   these are a sentence of shell.y.  No size bound. *)
+(* For every tree that is the POSIX reading of its own text and does not use
+   `for name ; do` (supported = faithful && nosemi), and whose words are of the
+   class their position demands (wf_words: in particular a command name is never
+   spelled like a reserved word): the lexer turns the printed program into
+   exactly the intended terminals, and these are a sentence of shell.y.
+   No size bound. *)
 Theorem C11_posix_accepted_partial : forall p : program,
   wf_words p = true -> supported p = true ->
   shell_lex (tokens p) = Lexed (terms p) /\ derives start_symbol (terms p).
 Proof. exact posix_accepted. Qed.
 Print Assumptions C11_posix_accepted_partial.
 
-(* The grammar alone covers the whole fragment except `for name ; do`:
-   every other rejection of a valid program is the lexer's. *)
+(* The lexer is right on the whole fragment, `for name ; do` included ... *)
+Theorem C11_lexer_recovers_terms : forall p : program,
+  wf_words p = true -> faithful p = true -> shell_lex (tokens p) = Lexed (terms p).
+Proof. exact lexer_recovers_terms. Qed.
+Print Assumptions C11_lexer_recovers_terms.
+
+(* ... and the grammar covers the whole fragment except `for name ; do`. *)
 Theorem C11_fragment_in_grammar : forall p : program,
   wf_words p = true -> nosemi_clist p = true -> derives start_symbol (terms p).
 Proof. exact terms_derivable. Qed.
@@ -47,46 +54,52 @@ Print Assumptions C11_lexer_defined.
 
 (* ---- the unguarded statement is false of the faithful model ---- *)
 
-(* "Every tree that is the POSIX reading of its own text (faithful), with
-   well-classified words, is accepted by lexer + parser." *)
-Definition C11_full : Prop := forall p : program,
-  wf_words p = true -> faithful p = true -> model_accepts p = true.
+(* "Every tree that is the POSIX reading of its own text, with words classified
+   by POSIX's rule (a reserved word is special only as the first word of a
+   command), is accepted by lexer + parser."  wf_words_posix is weaker than wf_words: *)
+Theorem C11_wf_words_is_stricter : forall p : program, wf_words p = true -> wf_words_posix p = true.
+Proof. exact wf_words_is_stricter. Qed.
+Print Assumptions C11_wf_words_is_stricter.
 
-(* for i ; do echo ; done                         (shell.y lacks the production) *)
+Definition C11_full : Prop := forall p : program,
+  wf_words_posix p = true -> faithful p = true -> model_accepts p = true.
+
+(* for i ; do echo ; done         (shell.y lacks for_clause : For name sequential_sep do_group) *)
 Theorem C11_for_semicolon_refuted : rejected_witness wit_for_semi.
 Proof. exact wit_for_semi_rejected. Qed.
 Print Assumptions C11_for_semicolon_refuted.
-(* { case x in esac }                             (atCommandStart := false after esac) *)
-Theorem C11_reserved_after_esac_refuted : rejected_witness wit_after_esac.
-Proof. exact wit_after_esac_rejected. Qed.
-Print Assumptions C11_reserved_after_esac_refuted.
-(* case x in esac | { echo ; }                    (inCasePattern survives esac) *)
-Theorem C11_pipe_after_case_refuted : rejected_witness wit_pipe_after_case.
-Proof. exact wit_pipe_after_case_rejected. Qed.
-Print Assumptions C11_pipe_after_case_refuted.
-(* case x in a ) echo ;; esac ; ( { echo ; } )    (inCasePattern survives esac) *)
-Theorem C11_paren_after_case_refuted : rejected_witness wit_paren_after_case.
-Proof. exact wit_paren_after_case_rejected. Qed.
-Print Assumptions C11_paren_after_case_refuted.
-(* > out echo esac                                (sinceFor/sinceCase start at 0, not -1) *)
-Theorem C11_initial_counters_refuted : rejected_witness wit_initial_counters.
-Proof. exact wit_initial_counters_rejected. Qed.
-Print Assumptions C11_initial_counters_refuted.
+(* V=$$x fi                       (atCommandStart stays true after an assignment word) *)
+Theorem C11_name_after_assignment_refuted : rejected_witness wit_name_after_assignment.
+Proof. exact wit_name_after_assignment_rejected. Qed.
+Print Assumptions C11_name_after_assignment_refuted.
 
 Theorem C11_full_refuted : ~ C11_full.
 Proof. exact full_refuted. Qed.
 Print Assumptions C11_full_refuted.
 
-(* which of the two is at fault *)
-Theorem C11_lexer_at_fault :
-  forall p, In p [wit_after_esac; wit_pipe_after_case; wit_paren_after_case; wit_initial_counters] ->
-  lr_accepts (terms p) = true /\ shell_lex (tokens p) <> Lexed (terms p).
-Proof. exact lexer_at_fault. Qed.
-Print Assumptions C11_lexer_at_fault.
+(* which of the two is at fault, and which hypothesis of the partial theorem excludes each *)
 Theorem C11_grammar_at_fault :
   shell_lex (tokens wit_for_semi) = Lexed (terms wit_for_semi) /\ lr_accepts (terms wit_for_semi) = false.
 Proof. exact grammar_at_fault. Qed.
 Print Assumptions C11_grammar_at_fault.
+Theorem C11_lexer_at_fault :
+  lr_accepts (terms wit_name_after_assignment) = true /\
+  shell_lex (tokens wit_name_after_assignment) <> Lexed (terms wit_name_after_assignment).
+Proof. exact lexer_at_fault. Qed.
+Print Assumptions C11_lexer_at_fault.
+Theorem C11_witnesses_outside_guard :
+  supported wit_for_semi = false /\ wf_words wit_for_semi = true /\
+  supported wit_name_after_assignment = true /\ wf_words wit_name_after_assignment = false.
+Proof. exact witnesses_outside_guard. Qed.
+Print Assumptions C11_witnesses_outside_guard.
+
+(* the four former witnesses ({ case x in esac }, case x in esac | { echo ; },
+   case x in a ) echo ;; esac ; ( { echo ; } ), > out echo esac), repaired in /repo *)
+Theorem C11_repaired_witnesses_accepted :
+  forallb (fun p => wf_words p && supported p && model_accepts p)
+          [was_after_esac; was_pipe_after_case; was_paren_after_case; was_initial_counters] = true.
+Proof. exact repaired_accepted. Qed.
+Print Assumptions C11_repaired_witnesses_accepted.
 
 (* ---- grammar and tables ---- *)
 
